@@ -167,7 +167,9 @@ class Link:
         first = True
         ntrig = R.randint(1, max_trig)
         bc = rbc
-        maxwords = R.choice([8, 20, 60, 511])
+        # words per page: small pages, and pages that fill a complete 8 KiB CRU page exactly (payload 8128 bytes = 508 slots of
+        # format 0 = 812 words + 8 bytes of padding in format 2), its neighbours, and arbitrary sizes up to the scanner's limit
+        maxwords = R.choice([8, 20, 60, 511, 508, R.randint(3, 620)] if s.df == 0 else [8, 20, 60, 511, 812, 813, R.randint(3, 990)])
         for t in range(ntrig):
             internal = R.choice([0, 1]) if first else 1
             if first:
@@ -253,6 +255,21 @@ def conforming_stream(R, nlinks=None, max_hbf=4, layers=None, df=None, ver=None,
     return out, meta
 
 
+def fill_page(pk, target_words):
+    """grow one page of a conforming stream to exactly `target_words` words by appending idle data words (nine 0x00 bytes,
+    which the ALPIDE decoder ignores outside a chip) after the last data word in front of its closing TDT; stays conforming in
+    every mode. Returns the index of the grown packet or None."""
+    for i, p in enumerate(pk):
+        if p.raw_payload is not None or len(p.words) >= target_words or p.words[-1][9] != 0xF0: continue
+        k = len(p.words) - 2
+        if k < 1 or p.words[k][9] in (0xE0, 0xE8, 0xF0, 0xE4, 0xF8): continue       # the word before the TDT must be a data word
+        did = p.words[k][9]
+        extra = [bytes(9) + bytes([did])] * (target_words - len(p.words))
+        p.words = p.words[:k + 1] + extra + p.words[k + 1:]
+        return i
+    return None
+
+
 def switch_format(R, pk):
     """one link changes its data format at an HBF boundary (header and payload layout together, so the
     layout still agrees with each packet's own header); returns the indices of the switched packets"""
@@ -265,6 +282,7 @@ def switch_format(R, pk):
     idx, starts = R.choice(cand)
     s0 = R.choice(starts)
     sw = [i for i in idx if i >= s0 and pk[i].raw_payload is None]
+    if any(len(pk[i].words) > 620 for i in sw): return []       # would not fit the scanner's size limit in 16-byte slots
     for i in sw:
         pk[i].fmt = 0 if pk[i].fmt == 2 else 2
         pk[i].rdh['df'] = pk[i].fmt
